@@ -106,7 +106,14 @@ func genHeight(t *rapid.T, withFaults bool) Height {
 		k := rapid.IntRange(1, 2).Draw(t, "nfault")
 		for i := 0; i < k; i++ {
 			kind := rapid.SampledFrom([]string{"future", "future", "listerr", "chunkerr", "notfound"}).Draw(t, "fkind")
-			h.Fetch = append(h.Fetch, world.FetchOutcome{Kind: kind})
+			o := world.FetchOutcome{Kind: kind}
+			if kind == "listerr" || kind == "chunkerr" {
+				o.Err = rapid.SampledFrom([]string{"", "", "deadline", "da-deadline", "timeout", "notfound"}).Draw(t, "fflavour")
+				if kind == "listerr" && o.Err == "notfound" {
+					o.Err = "" // a listing answered "not found" IS an empty height for the caller, not a fault
+				}
+			}
+			h.Fetch = append(h.Fetch, o)
 		}
 	}
 	return h
